@@ -827,6 +827,28 @@ def run(R):
             R.case(mon.fp('tuplen', n))
     if R.shard == 0:
         deep_values(R, B, vm)
+        # one continuation OBJECT sitting in two or three fields of another (body is after, cond is body ...): the value is what the fields hold, identity does not matter -
+        # the cell equals the one built from distinct equal objects, and every field comes back
+        for kind, fields in (('vmc_until', ('body', 'after')), ('vmc_repeat', ('body', 'after')), ('vmc_while_cond', ('cond', 'body', 'after')), ('vmc_while_body', ('cond', 'body', 'after'))):
+            for pattern in ((0, 0, 0), (0, 0, 1), (0, 1, 0), (1, 0, 0)):
+                mk = lambda code: vm.VmCont('vmc_quit', exit_code=code)
+                shared = [mk(7), mk(9)]
+                kw_shared = {f: shared[pattern[i]] for i, f in enumerate(fields)}
+                kw_fresh = {f: mk(7 if pattern[i] == 0 else 9) for i, f in enumerate(fields)}
+                extra = {'count': 3} if kind == 'vmc_repeat' else {}
+                st1, c1 = mon.call(lambda: vm.VmStack.serialize([vm.VmCont(kind, **extra, **kw_shared)]))
+                st2, c2 = mon.call(lambda: vm.VmStack.serialize([vm.VmCont(kind, **extra, **kw_fresh)]))
+                R.counters['oracle_evaluations'] += 1
+                R.count('shared_continuation_objects')
+                W = {'kind': kind, 'fields_sharing_one_object': [f for i, f in enumerate(fields) if pattern[i] == 0]}
+                ok = st1 == 'ok' and st2 == 'ok' and c1.hash == c2.hash
+                R.check(ok, 'shared-continuation-object-serialises-differently', f'{kind} whose fields {W["fields_sharing_one_object"]} hold one and the same continuation object serialises '
+                        f'differently from the same continuation built from distinct equal objects ({c1!r})'[:300], W)
+                if ok:
+                    st3, back = mon.call(lambda: vm.VmStack.deserialize(c1.begin_parse()))
+                    got = back[0] if st3 == 'ok' and isinstance(back, list) and back else None
+                    R.check(got is not None and all(getattr(getattr(got, f, None), 'exit_code', None) == (7 if pattern[i] == 0 else 9) for i, f in enumerate(fields)),
+                            'shared-continuation-object-does-not-parse-back', f'{kind} with shared child objects does not parse back to its fields', W)
     for i in range((60 if quick else 3000) // R.nshards + 1):
         st, e = mon.call(failed_then_repaired, R, B, vm, rng)
         if st == 'exc':
